@@ -3,6 +3,7 @@
 package weshnet
 
 import (
+	"context"
 	"fmt"
 	"testing"
 	"time"
@@ -26,6 +27,7 @@ func TestVerifProbeReplica(t *testing.T) {
 	_, err = ms1.ContactRequestReferenceReset(ctx)
 	fmt.Println("reset", err)
 	fmt.Println("a1 entries", vfEntryIDs(ms1), "values", vfValueIDs(ms1), "enabled", vfEn(ms1))
+	fmt.Println("a1 list", vfList(ms1, false), "rev", vfList(ms1, true))
 	t1 := time.Now()
 	want := map[string]bool{}
 	for _, id := range vfEntryIDs(ms1) {
@@ -36,11 +38,13 @@ func TestVerifProbeReplica(t *testing.T) {
 	ms2 := gc2.MetadataStore()
 	time.Sleep(50 * time.Millisecond)
 	fmt.Println("a2 entries", vfEntryIDs(ms2), "values", vfValueIDs(ms2), "enabled", vfEn(ms2))
+	fmt.Println("a2 list", vfList(ms2, false), "rev", vfList(ms2, true))
 	t2 := time.Now()
 	a1.Reopen(g)
 	fmt.Println("reopen took", time.Since(t2))
 	ms1 = a1.gcs[g.GroupIDAsString()].MetadataStore()
 	fmt.Println("a1 reopened entries", vfEntryIDs(ms1), "values", vfValueIDs(ms1), "enabled", vfEn(ms1))
+	fmt.Println("a1 reopened list", vfList(ms1, false), "rev", vfList(ms1, true))
 	t.Logf("VERIF-DONE")
 }
 
@@ -50,4 +54,16 @@ func vfEn(ms *MetadataStore) string {
 		return fmt.Sprint(en, " nil")
 	}
 	return fmt.Sprintf("%v seed=%x", en, c.PublicRendezvousSeed[:4])
+}
+
+func vfList(ms *MetadataStore, rev bool) []string {
+	ch, err := ms.ListEvents(context.Background(), nil, nil, rev)
+	if err != nil {
+		return []string{"ERR " + err.Error()}
+	}
+	out := []string{}
+	for e := range ch {
+		out = append(out, e.Metadata.EventType.String())
+	}
+	return out
 }
